@@ -214,6 +214,10 @@ def check_obligations(prop: str, thorough: bool = False) -> dict:
     failures = list(audit_sources())
     axioms: dict[str, list[str]] = {}
     mods = [f"TradingVerif.Props.{prop}"]
+    # the audit file may draw on theorems of another property's module (e.g. C02's tabular clause lives in C18)
+    for m in re.findall(r"^import\s+(TradingVerif\.Props\.\S+)", (LEAN / "TradingVerif" / "Audit" / f"{prop}.lean").read_text(), re.M):
+        if m not in mods:
+            mods.append(m)
     if thorough:
         # rebuild the property's own proof module from source
         for ext in ("olean", "ilean", "trace", "hash", "olean.hash", "ilean.hash", "c", "c.hash"):
